@@ -302,6 +302,16 @@ def c05(tier, seed):
     c.cov["bounds"] = {"N": "0..%d" % (4 if tier == "quick" else 6), "fault": "every choice of the single element whose destructor panics, every (front, back), every skip count 0..len+2"}
     c.conform(binary, scns, "iter-faults")
     c.conform(binary, teardown_fault_scripts([1, 2, 3] if tier == "quick" else [1, 2, 3, 4, 5, 8]), "teardown-faults")
+    # the consumers that drop elements themselves (find / rfind drop what the predicate rejects; for_each / position / any
+    # hand elements to the closure, which drops them): one destructor panics, from every position
+    cons = []
+    for n in ([1, 2, 3] if tier == "quick" else [1, 2, 3, 4]):
+        for f in range(0, n + 1):
+            for b in range(f + 1, n + 1):
+                for pan in range(f + 1, b + 1):
+                    for op in ("iter_find", "iter_rfind", "iter_position", "iter_any", "iter_for_each"):
+                        cons.append(iter_script({"n": n, "f": f, "b": b, "op": op, "arg": -1, "pan": pan}, "C05", followups=op != "iter_for_each"))
+    c.conform(binary, cons, "consumer-faults")
     # model-to-model: the iterator mechanism model's transitions are accepted by the contract; with the
     # as-found nth / nth_back statement order some are rejected
     mech_conformance(c, "MC_Iter", "TR_Iter", False)
